@@ -7,7 +7,8 @@
    outputs, terminal event outputs, final task data). *)
 From Coq Require Import List Arith ZArith Bool.
 Import ListNotations.
-From Acts.Gen Require Import GenState.
+From Coq Require Import String.
+From Acts.Gen Require Import GenState GenConsts.
 From Acts.Model Require Import Engine.
 From Acts.Proofs Require Import EngineLemmas.
 
@@ -22,6 +23,12 @@ Theorem C07_outputs_have_declared_keys :
     map fst (vmerge (vmerge (n_outputs (tnode e i)) [(0, VNull)]) (map (fun k => (k, VNull)) (t_exposed (tk e i)))).
 Proof. exact outputs_keys. Qed.
 
+(* the private class of the model (keys 0 `data`, 1 `dataset`, 2 `__p` of the generated names) is the class of the source's
+   pattern, regenerated from acts/src/utils/consts.rs on every run: names beginning with `data` or with `__` *)
+Theorem C07_private_class_is_the_pattern_of_the_source :
+  GenConsts.ACT_PRI_KEYS_REGEX = "^(data|__).*"%string /\ (forall k, pri_regex k = true <-> k <= 2).
+Proof. split; [reflexivity|]. intros k. unfold pri_regex. apply Nat.leb_le. Qed.
+
 Example C07_example :
   let ns := [ Build_node 0 KWorkflow 0 [(ONormal, 1)] None None false [] dspec [] [] [] [(3, VNum 5)] [(3, VNull)] [] false;
               Build_node 1 KStep 1 [(ONormal, 2)] None None false [] dspec [] [] [] [] [] [] false;
@@ -34,3 +41,4 @@ Proof. vm_compute. auto. Qed.
 Print Assumptions C07_write_stays_in_ancestry.
 Print Assumptions C07_private_names_stay_in_task.
 Print Assumptions C07_outputs_have_declared_keys.
+Print Assumptions C07_private_class_is_the_pattern_of_the_source.
